@@ -33,4 +33,8 @@ def instances(tier):
         for ph in sh["phases"]:
             out.append(Instance("C05", "sys_common:s_run", dict(shape=sh, oracle="c05", opts={"phase": ph}),
                                 name="S/%s@%s" % (sid, ph), uf=True, cover=["solved"], weight=20))
+    if tier == "thorough":
+        for sid, sh in shapes.enumerate_mux().items():
+            out.append(Instance("C05", "sys_common:s_run", dict(shape=sh, oracle="c05"), name="S/enum/" + sid, uf=True, cover=["solved"],
+                                weight=15, max_paths=8000, time_limit=3000))
     return out, META
